@@ -25,7 +25,7 @@ RULE = ("one case = one real project directory written the way signac 1.x did (v
         "workspace_dir {key absent, 'workspace', relative custom, nested custom, nested names ENDING in workspace (data/workspace, x/y/workspace), spellings ./workspace and workspace/, custom colliding with an existing empty / "
         "non-empty 'workspace'}; the workspace directory existing or (0 jobs only) never created; v1 cache and shell-history "
         "files present or not; a pre-existing project document or not; 0, 1, 3 or 5 jobs with documents, files and nested "
-        "files.  thorough = the whole product, quick = every small class plus a seeded sample.  Observed: exception class "
+        "files; the collision matrix custom workspace_dir {never created, empty, with jobs} x stray <root>/workspace {empty, with job directories, a file}; HISTORIES: the same directory in several states within one process (nothing -> legacy project placed; nothing -> current; current -> newer; legacy -> upgraded; current -> legacy; projects removed), all four entry points queried in every state.  thorough = the whole product, quick = every small class plus a seeded sample.  Observed: exception class "
         "and byte snapshot for Project(), get_project(), get_project(search=False), init_project() on the pristine tree; "
         "outcome and tree after apply_migrations, after a second apply_migrations, and ids / state points / documents / "
         "files of the project re-opened with signac.  non-trivial: a legacy project with >= 1 job or a non-default option; "
@@ -85,6 +85,7 @@ def all_inputs():
             continue
         out.append({"layout": "v2", "ver": ver, "ws_exists": ex, "njobs": njobs, "predoc": predoc, "cache": bool(njobs)})
     out.append({"layout": "none", "njobs": 0})
+    out += collision_matrix() + histories()
     out.append({"layout": "v1", "ver": 1, "name": None, "ws": None, "ws_exists": True, "collide": None,
                 "njobs": 1, "cache": False, "hist": False, "predoc": False})   # no project key: not loadable
     return out
@@ -93,6 +94,46 @@ def all_inputs():
 # the former F17 witness (fixed by 8637b58): custom workspace_dir that was never created
 F17_WITNESS = {"layout": "v1", "ver": 1, "name": "test_project", "ws": "ws", "ws_exists": False, "collide": None,
                "njobs": 0, "cache": False, "hist": False, "predoc": False}
+
+
+def legacy(ver=1, name="test_project", ws=None, ws_exists=True, collide=None, njobs=3, **kw):
+    d = {"layout": "v1", "ver": ver, "name": name, "ws": ws, "ws_exists": ws_exists, "collide": collide,
+         "njobs": njobs, "cache": False, "hist": False, "predoc": False}
+    d.update(kw)
+    return d
+
+
+EMPTY = {"layout": "none", "njobs": 0}
+
+
+def current(ver=2, njobs=3, ws_exists=True):
+    return {"layout": "v2", "ver": ver, "ws_exists": ws_exists, "njobs": njobs, "predoc": False, "cache": False}
+
+
+def collision_matrix():
+    """custom workspace_dir {never created, empty, with jobs} x stray <root>/workspace {empty, with job dirs, a file}."""
+    out = []
+    for w in ("ws", "data/ws"):
+        for ver in (None, 1):
+            for (ex, njobs) in ((False, 0), (True, 0), (True, 3)):
+                for col in ("empty", "full", "file"):
+                    out.append(legacy(ver=ver, ws=w, ws_exists=ex, collide=col, njobs=njobs, cache=(njobs == 3)))
+    return out
+
+
+def histories():
+    """one directory, several states in ONE process: query -> replace the directory -> query again."""
+    out = []
+    for ver in (None, 0, 1, 3):
+        out.append(dict(legacy(ver=ver), before=[EMPTY]))                       # nothing there, then a legacy project is placed
+    out.append(dict(legacy(ver=1, ws="ws"), before=[EMPTY, EMPTY]))
+    out.append(dict(current(2), before=[EMPTY]))                                # nothing, then a current project
+    out.append(dict(current(3), before=[EMPTY, current(2)]))                    # current, then replaced by a newer one
+    out.append(dict(current(2), before=[legacy(ver=1)]))                        # legacy upgraded in place
+    out.append(dict(legacy(ver=1), before=[current(2)]))                        # current replaced by legacy
+    out.append(dict(EMPTY, before=[legacy(ver=0), current(2)]))                 # projects removed
+    out.append(dict(legacy(ver=None, ws="ws", ws_exists=False, njobs=0), before=[EMPTY, current(1, njobs=0, ws_exists=False)]))
+    return out
 
 
 def always_quick():
@@ -108,7 +149,7 @@ def always_quick():
     for k, w in enumerate(QUOTED_WS):
         out.append({"layout": "v1", "ver": [1, None][k % 2], "name": ["None", "run #7"][k % 2], "ws": w, "ws_exists": True,
                     "collide": None, "njobs": 3, "cache": True, "hist": False, "predoc": False})
-    return out
+    return out + collision_matrix() + histories()
 
 
 def small_class(d):
@@ -116,7 +157,21 @@ def small_class(d):
             or (not d["ws_exists"]) or d["collide"] is not None)
 
 
+def dedupe(descs):
+    seen, out = set(), []
+    for d in descs:
+        k = json.dumps(d, sort_keys=True)
+        if k not in seen:
+            seen.add(k)
+            out.append(d)
+    return out
+
+
 def gen_inputs(tier, rng):
+    return dedupe(_gen_inputs(tier, rng))
+
+
+def _gen_inputs(tier, rng):
     space = all_inputs()
     if tier != "quick":
         return space
@@ -181,7 +236,10 @@ def build(root, d):
         if d["ws_exists"]:
             os.makedirs(wsdir)
             sps = write_jobs(wsdir, d["njobs"])
-        if d["collide"]:
+        if d["collide"] == "file":
+            with open(os.path.join(root, "workspace"), "w") as fh:
+                fh.write("not a directory\n")
+        elif d["collide"]:
             os.makedirs(os.path.join(root, "workspace"))
             if d["collide"] == "full":
                 write_jobs(os.path.join(root, "workspace"), 1) if d["njobs"] != 1 else write_jobs(os.path.join(root, "workspace"), 2)
@@ -262,6 +320,28 @@ def coq_res_unit(r):
     return "(Ok tt)" if r[0] == "ok" else "(Err %s)" % r[1]
 
 
+def gate_calls(signac, base, root, pristine, before):
+    """Project / get_project / get_project(search=False) / init_project on the pristine tree, restored after each change."""
+    gate = []
+    for kind, fn in [("GProject", lambda: signac.Project(root)), ("(GGet true)", lambda: signac.get_project(root)),
+                     ("(GGet false)", lambda: signac.get_project(root, search=False)),
+                     ("GInit", lambda: signac.init_project(root))]:
+        try:
+            res = ("ok", fn().path)
+        except Exception as e:
+            res = ("err", exn_name(e), type(e).__name__)
+        after = byte_snapshot(base)
+        changed = after != before
+        post = None
+        if changed:
+            post = coq_node(base)
+            shutil.rmtree(base)
+            shutil.copytree(pristine, base, symlinks=True)
+            assert byte_snapshot(base) == before
+        gate.append({"kind": kind, "res": res, "changed": changed, "post": post})
+    return gate
+
+
 def observe(d):
     """everything the implementation does with the project described by d (runs in a forked child)."""
     import signac
@@ -273,30 +353,23 @@ def observe(d):
         base = os.path.join(sd, "t")
         root = os.path.join(base, "p")
         pristine = os.path.join(sd, "pristine")
+        os.chdir(sd)
+        # history: earlier states of the same directory, queried in this same process
+        hist = []
+        for k, st in enumerate(d.get("before", [])):
+            os.makedirs(base)
+            build(root, st)
+            pk = os.path.join(sd, "pristine%d" % k)
+            shutil.copytree(base, pk, symlinks=True)
+            hist.append({"tree": coq_node(base), "gate": gate_calls(signac, base, root, pk, byte_snapshot(base))})
+            shutil.rmtree(base)
         os.makedirs(base)
         build(root, d)
         shutil.copytree(base, pristine, symlinks=True)
-        os.chdir(sd)
         tree = coq_node(base)
         before = byte_snapshot(base)
         jobs_before = raw_jobs(os.path.join(root, d.get("ws") or "workspace")) if d["layout"] != "none" else []
-        gate = []
-        for kind, fn in [("GProject", lambda: signac.Project(root)), ("(GGet true)", lambda: signac.get_project(root)),
-                         ("(GGet false)", lambda: signac.get_project(root, search=False)),
-                         ("GInit", lambda: signac.init_project(root))]:
-            try:
-                res = ("ok", fn().path)
-            except Exception as e:
-                res = ("err", exn_name(e), type(e).__name__)
-            after = byte_snapshot(base)
-            changed = after != before
-            post = None
-            if changed:
-                post = coq_node(base)
-                shutil.rmtree(base)
-                shutil.copytree(pristine, base, symlinks=True)
-                assert byte_snapshot(base) == before
-            gate.append({"kind": kind, "res": res, "changed": changed, "post": post})
+        gate = gate_calls(signac, base, root, pristine, before)
         err = io.StringIO()
         with contextlib.redirect_stderr(err):
             try:
@@ -328,22 +401,27 @@ def observe(d):
         return {"base": base, "root": root, "cwd": sd, "tree": tree, "gate": gate, "mig": mig, "mig_post": mig_post,
                 "again": again, "again_changed": again_changed, "jobs_before": jobs_before, "opened": opened,
                 "name_after": name_after, "layout_after": layout_after,
-                "orig": (d.get("name"), d.get("ws")) if d["layout"] == "v1" else None}
+                "orig": (d.get("name"), d.get("ws")) if d["layout"] == "v1" else None, "hist": hist}
 
 
 def run_case(desc):
     o = in_child(observe, desc)
-    glits = ["{| g_kind := %s; g_res := %s; g_changed := %s; g_post := %s |}" % (
-        g["kind"], coq_res_str(g["res"]), coq_bool(g["changed"]), coq_opt(g["post"])) for g in o["gate"]]
+    def glit(g):
+        return "{| g_kind := %s; g_res := %s; g_changed := %s; g_post := %s |}" % (
+            g["kind"], coq_res_str(g["res"]), coq_bool(g["changed"]), coq_opt(g["post"]))
+
+    glits = [glit(g) for g in o["gate"]]
+    hlits = ["(%s, %s)" % (h["tree"], coq_list([glit(g) for g in h["gate"]], "gobs")) for h in o["hist"]]
     opened = o["opened"]
     coq = ("{| c20_base := %s; c20_tree := %s; c20_root := %s; c20_cwd := %s; c20_gate := %s; c20_mig := %s; "
            "c20_mig_post := %s; c20_again := %s; c20_again_changed := %s; c20_jobs_before := %s; c20_open_after := %s; "
-           "c20_name_after := %s; c20_orig := %s |}") % (
+           "c20_name_after := %s; c20_hist := %s; c20_orig := %s |}") % (
         coq_str(o["base"]), o["tree"], coq_str(o["root"]), coq_str(o["cwd"]), coq_list(glits, "gobs"),
         coq_res_unit(o["mig"]), o["mig_post"], coq_res_unit(o["again"]), coq_bool(o["again_changed"]),
         coq_jobs(o["jobs_before"]),
         ("(Ok %s)" % coq_jobs(opened[1])) if opened[0] == "ok" else "(Err %s)" % opened[1],
         coq_opt(None if o["name_after"] is None else coq_json(o["name_after"])),
+        coq_list(hlits, "(node * list gobs)"),
         coq_opt(None if o["orig"] is None else "(%s, %s)" % (
             coq_opt(None if o["orig"][0] is None else coq_str(o["orig"][0])),
             coq_opt(None if o["orig"][1] is None else coq_str(o["orig"][1])))))
@@ -352,10 +430,12 @@ def run_case(desc):
            "ids_before": [j[0] for j in o["jobs_before"]],
            "opened": opened[0] if opened[0] == "err" else [j[0] for j in opened[1]],
            "opened_exc": opened[1] if opened[0] == "err" else None,
-           "name_after": o["name_after"], "root_listing_after": o["layout_after"]}
+           "name_after": o["name_after"], "root_listing_after": o["layout_after"],
+           "history": [[[g["kind"], g["res"][0] if g["res"][0] == "ok" else g["res"][1], g["changed"]] for g in h["gate"]]
+                       for h in o["hist"]]}
     d = desc
     nontrivial = d["layout"] == "v1" and (d["njobs"] >= 1 or d.get("ws") is not None or d.get("cache") or d.get("hist"))
-    kinds = ["%s:ver=%s" % (d["layout"], d.get("ver")),
+    kinds = (["history:%d" % len(d["before"])] if d.get("before") else []) + ["%s:ver=%s" % (d["layout"], d.get("ver")),
              "ws=%s%s%s" % (d.get("ws"), "" if d.get("ws_exists", True) else ":missing", ":collide" if d.get("collide") else "")]
     return Case(coq, desc, obs=obs, nontrivial=bool(nontrivial), key=json.dumps(desc, sort_keys=True), kinds=kinds)
 
